@@ -193,6 +193,48 @@ def gen_survey(rng, vars_, n_resp, weighted, uneven_missing=True, zero_w=True):
 
 
 # ---------------------------------------------------------------------------------------
+# weight regimes (all dyadic, so the exact model applies and binary64 sums stay exact)
+
+TINY = Fraction(1, 2 ** 40)
+MINUTE = Fraction(1, 2 ** 34)
+SMALLS = [Fraction(1, 2 ** 6), Fraction(1, 2 ** 5), Fraction(1, 2 ** 4), Fraction(1, 2 ** 3)]
+
+
+def pick_regime(rng, weighted, p_each=0.08, allowed=("tiny", "mixed", "small")):
+    """None, or one of: 'tiny' (all weights x 2^-40), 'mixed' (one row/category answered only by
+    respondents of weight ~2^-34 next to ordinary weights), 'small' (all weights in 2^-6..2^-3)"""
+    if not weighted:
+        return None
+    x = rng.random()
+    for i, name in enumerate(("tiny", "mixed", "small")):
+        if x < (i + 1) * p_each:
+            return name if name in allowed else None
+    return None
+
+
+def apply_regime(rng, vars_, survey, regime, mixed_var=None):
+    if regime is None:
+        return survey
+    if regime == "tiny":
+        return [(w * TINY, a) for w, a in survey]
+    if regime == "small":
+        return [((rng.choice(SMALLS) if w != 0 else w), a) for w, a in survey]
+    # mixed: everybody who belongs to one element of one variable (default: the rows variable)
+    vi = mixed_var if mixed_var is not None else max(0, len(vars_) - 2)
+    v = vars_[vi]
+    ne = n_valid_elems(v)
+    if ne == 0:
+        return survey
+    e = rng.randrange(ne)
+    out = []
+    for w, a in survey:
+        if in_elem(v, a[vi], e):
+            w = MINUTE * rng.choice([1, 1, 2, 3])
+        out.append((w, a))
+    return out
+
+
+# ---------------------------------------------------------------------------------------
 # respondent-level predicates (Python twin of Lean `Spec/CellSpec.lean`)
 
 
